@@ -65,9 +65,6 @@ func (f *FlowMod) Len() (n uint16) {
 	n = f.Header.Len()
 	n += 40
 	n += f.Match.Len()
-	if f.Command == FC_DELETE || f.Command == FC_DELETE_STRICT {
-		return
-	}
 	for _, v := range f.Instructions {
 		n += v.Len()
 	}
